@@ -41,7 +41,11 @@ def shape_inputs(c, ent, prm):
 
 
 def lean_bounds(chk, d, ents):
+    """Shape runs. Kernels are generated sequentially (the _NoOpt patch is process-global), the runs themselves are
+    spread over several driver processes."""
+    from concurrent.futures import ThreadPoolExecutor
     from .c17 import _NoOpt
+    jobs = []
     for e in ents:
         variants = []
         try:
@@ -54,46 +58,65 @@ def lean_bounds(chk, d, ents):
             continue
         for tag, cases in variants:
             for c in cases:
-                chk.programs += 1
                 space = entity_perm_space(c)
                 full = len(space)
-                if len(space) > (4000 if chk.tier == "thorough" else 300):
+                if len(space) > (1200 if chk.tier == "thorough" else 300):
                     # large products (hexahedron/prism interior facets): every entity tuple at the extreme
                     # permutation tuples, every permutation tuple at the extreme entity tuples, and a seeded sample
                     es = sorted({s_[0] for s_ in space}); ps = sorted({s_[1] for s_ in space})
                     keep = {(e_, p_) for e_ in es for p_ in (ps[0], ps[-1])} | {(e_, p_) for p_ in ps for e_ in (es[0], es[-1])}
                     rs = np.random.default_rng(chk.seed)
-                    keep |= {space[int(i)] for i in rs.choice(len(space), size=20, replace=False)}
+                    keep |= {space[int(i)] for i in rs.choice(len(space), size=20 if chk.tier == "quick" else 200, replace=False)}
                     space = sorted(keep)
                     chk.notes.setdefault("reduced_entity_perm_products", []).append(f"{c.name}: {len(space)} of {full}")
-                bad = None
-                for ent, prm in space:
-                    r = d.ask(f"(exec shape {c.ast_sexp} {shape_inputs(c, ent, prm)} ())")
-                    chk.case("shape_run", None)
-                    if r[0] != "ok":
-                        bad = (ent, prm, r)
-                        break
-                chk.case("kernel", f"{c.name}:{tag}:{c.integral_type}:{len(space)}",
-                         sample={"kernel": c.name, "extents": c.sizes, "entity_perm_combinations": len(space)}
-                         if len(chk.samples) < 4 else None, n=0)
-                if c.integral_type == "cell":
-                    m = d.ask(f"(mentions {c.ast_sexp} entity_local_index quadrature_permutation)")
-                    if m[1:] != ["false", "false"]:
-                        chk.violation(f"cell-derefs-entity:{e.name}",
-                                      "cell kernel mentions entity_local_index / quadrature_permutation",
-                                      {"kernel": c.name, "mentions": m[1:]})
-                if bad is not None:
-                    ent, prm, r = bad
-                    if "oob" not in r:
-                        # the model could not run the kernel (unsupported node, bad index expression, parse error): the tie is
-                        # broken, but that is not an out-of-bounds access
-                        chk.disagree("shape run of a generated kernel fails in the Lean semantics", {"kernel": c.name, "variant": tag, "entity": ent, "perm": prm, "reply": r})
-                        continue
-                    # exec on the real AST with contract-size buffers is the property's own oracle here
-                    # (instrumented semantics); the C-level confirmation is run by c_search.
-                    chk.violation(f"oob:{e.name}:{r[1] if len(r) > 1 else '?'}:{r[2] if len(r) > 2 else '?'}",
-                                  f"kernel leaves the contract extents: {' '.join(r)} for entity={ent} perm={prm}",
-                                  {"kernel": c.name, "variant": tag, "extents": c.sizes, "entity": ent, "perm": prm, "reply": r})
+                jobs.append((e, tag, c, space))
+
+    nworkers = min(8, max(1, len(jobs)))
+    drivers = [d] + [lean.Driver("driver") for _ in range(nworkers - 1)]
+
+    def run(k):
+        dd = drivers[k]
+        out = []
+        for e, tag, c, space in jobs[k::nworkers]:
+            bad = None
+            n = 0
+            for ent, prm in space:
+                r = dd.ask(f"(exec shape {c.ast_sexp} {shape_inputs(c, ent, prm)} ())")
+                n += 1
+                if r[0] != "ok":
+                    bad = (ent, prm, r)
+                    break
+            m = dd.ask(f"(mentions {c.ast_sexp} entity_local_index quadrature_permutation)") if c.integral_type == "cell" else None
+            out.append((e, tag, c, len(space), n, bad, m))
+        return out
+    try:
+        with ThreadPoolExecutor(max_workers=nworkers) as ex:
+            results = [r for part in ex.map(run, range(nworkers)) for r in part]
+    finally:
+        for dd in drivers[1:]:
+            dd.close()
+    for e, tag, c, nspace, n, bad, m in results:
+        chk.programs += 1
+        chk.case("shape_run", None, n=n)
+        chk.case("kernel", f"{c.name}:{tag}:{c.integral_type}:{nspace}",
+                 sample={"kernel": c.name, "extents": c.sizes, "entity_perm_combinations": nspace}
+                 if len(chk.samples) < 4 else None, n=0)
+        if m is not None and m[1:] != ["false", "false"]:
+            chk.violation(f"cell-derefs-entity:{e.name}",
+                          "cell kernel mentions entity_local_index / quadrature_permutation",
+                          {"kernel": c.name, "mentions": m[1:]})
+        if bad is not None:
+            ent, prm, r = bad
+            if "oob" not in r:
+                # the model could not run the kernel (unsupported node, bad index expression, parse error): the tie is
+                # broken, but that is not an out-of-bounds access
+                chk.disagree("shape run of a generated kernel fails in the Lean semantics", {"kernel": c.name, "variant": tag, "entity": ent, "perm": prm, "reply": r})
+                continue
+            # exec on the real AST with contract-size buffers is the property's own oracle here
+            # (instrumented semantics); the C-level confirmation is run by c_search.
+            chk.violation(f"oob:{e.name}:{r[1] if len(r) > 1 else '?'}:{r[2] if len(r) > 2 else '?'}",
+                          f"kernel leaves the contract extents: {' '.join(r)} for entity={ent} perm={prm}",
+                          {"kernel": c.name, "variant": tag, "extents": c.sizes, "entity": ent, "perm": prm, "reply": r})
 
 
 def _c_worker_factory(ents, seed):
@@ -169,7 +192,7 @@ def c_search(chk, ents):
 def run(chk):
     chk.rule = ("every kernel AST of the corpus is executed by the Lean driver over the one-point domain with arrays of exactly the "
                 "contract extents (computed from the UFL form and Basix, not from FFCx's IR), for every valid (entity, permutation) "
-                "argument tuple when there are at most 300 (quick) / 4000 (thorough) of them, otherwise for all tuples at the extreme values "
+                "argument tuple when there are at most 300 (quick) / 1200 (thorough) of them, otherwise for all tuples at the extreme values "
                 "of either argument plus a seeded sample (listed in reduced_entity_perm_products); distinct = kernel × variant. search: compiled C kernels called with NaN-sentinel padded inputs "
                 "and canaries around A.")
     chk.trusted += ["harness/kernels.py contract extents (computed from UFL form data and Basix)",
